@@ -60,6 +60,16 @@ enum PendingBlock {
     ScBool {
         jump_instrs: Vec<u32>,
     },
+    /// A scope (frame, capture, auto escape) that `break` / `continue` have
+    /// to close when they jump out of it.
+    Scope(#[cfg_attr(not(feature = "loop_controls"), allow(dead_code))] ScopeKind),
+}
+
+#[derive(Copy, Clone)]
+enum ScopeKind {
+    Frame,
+    Capture,
+    AutoEscape,
 }
 
 const CODEGEN_POOL_MAX_ITEMS: usize = 64;
@@ -244,6 +254,53 @@ impl<'source> CodeGenerator<'source> {
         }
     }
 
+    /// Marks the start of a scope that loop controls have to close.
+    fn start_scope(&mut self, kind: ScopeKind) {
+        self.pending_block.push(PendingBlock::Scope(kind));
+    }
+
+    /// Marks the end of a scope opened with `start_scope`.
+    fn end_scope(&mut self) {
+        match self.pending_block.pop() {
+            Some(PendingBlock::Scope(_)) => {}
+            _ => unreachable!(),
+        }
+    }
+
+    /// Emits the instructions that close all scopes between the current
+    /// position and the innermost loop.
+    #[cfg(feature = "loop_controls")]
+    fn close_scopes_up_to_loop(&mut self) {
+        let mut scopes = Vec::new();
+        let mut found_loop = false;
+        for pending_block in self.pending_block.iter().rev() {
+            match pending_block {
+                PendingBlock::Loop { .. } => {
+                    found_loop = true;
+                    break;
+                }
+                PendingBlock::Scope(kind) => scopes.push(*kind),
+                _ => {}
+            }
+        }
+        if found_loop {
+            for kind in scopes {
+                match kind {
+                    ScopeKind::Frame => {
+                        self.add(Instruction::PopFrame);
+                    }
+                    ScopeKind::Capture => {
+                        self.add(Instruction::EndCapture);
+                        self.add(Instruction::DiscardTop);
+                    }
+                    ScopeKind::AutoEscape => {
+                        self.add(Instruction::PopAutoEscape);
+                    }
+                }
+            }
+        }
+    }
+
     /// Begins an if conditional
     pub fn start_if(&mut self) {
         let jump_instr = self.add(Instruction::JumpIfFalse(!0));
@@ -342,6 +399,7 @@ impl<'source> CodeGenerator<'source> {
             ast::Stmt::WithBlock(with_block) => {
                 self.set_line_from_span(with_block.span());
                 self.add(Instruction::PushWith);
+                self.start_scope(ScopeKind::Frame);
                 for (target, expr) in &with_block.assignments {
                     self.compile_expr(expr);
                     self.compile_assignment(target);
@@ -349,6 +407,7 @@ impl<'source> CodeGenerator<'source> {
                 for node in &with_block.body {
                     self.compile_stmt(node);
                 }
+                self.end_scope();
                 self.add(Instruction::PopFrame);
             }
             ast::Stmt::Set(set) => {
@@ -359,9 +418,11 @@ impl<'source> CodeGenerator<'source> {
             ast::Stmt::SetBlock(set_block) => {
                 self.set_line_from_span(set_block.span());
                 self.add(Instruction::BeginCapture(CaptureMode::Capture));
+                self.start_scope(ScopeKind::Capture);
                 for node in &set_block.body {
                     self.compile_stmt(node);
                 }
+                self.end_scope();
                 self.add(Instruction::EndCapture);
                 if let Some(ref filter) = set_block.filter {
                     self.compile_expr(filter);
@@ -372,17 +433,21 @@ impl<'source> CodeGenerator<'source> {
                 self.set_line_from_span(auto_escape.span());
                 self.compile_expr(&auto_escape.enabled);
                 self.add(Instruction::PushAutoEscape);
+                self.start_scope(ScopeKind::AutoEscape);
                 for node in &auto_escape.body {
                     self.compile_stmt(node);
                 }
+                self.end_scope();
                 self.add(Instruction::PopAutoEscape);
             }
             ast::Stmt::FilterBlock(filter_block) => {
                 self.set_line_from_span(filter_block.span());
                 self.add(Instruction::BeginCapture(CaptureMode::Capture));
+                self.start_scope(ScopeKind::Capture);
                 for node in &filter_block.body {
                     self.compile_stmt(node);
                 }
+                self.end_scope();
                 self.add(Instruction::EndCapture);
                 self.compile_expr(&filter_block.filter);
                 self.add(Instruction::Emit);
@@ -440,6 +505,7 @@ impl<'source> CodeGenerator<'source> {
             #[cfg(feature = "loop_controls")]
             ast::Stmt::Continue(cont) => {
                 self.set_line_from_span(cont.span());
+                self.close_scopes_up_to_loop();
                 for pending_block in self.pending_block.iter().rev() {
                     if let PendingBlock::Loop { iter_instr, .. } = pending_block {
                         self.add(Instruction::Jump(*iter_instr));
@@ -450,6 +516,7 @@ impl<'source> CodeGenerator<'source> {
             #[cfg(feature = "loop_controls")]
             ast::Stmt::Break(brk) => {
                 self.set_line_from_span(brk.span());
+                self.close_scopes_up_to_loop();
                 let instr = self.add(Instruction::Jump(0));
                 for pending_block in self.pending_block.iter_mut().rev() {
                     if let &mut PendingBlock::Loop {
